@@ -210,6 +210,13 @@ def run_ctor_case(spec, keys):
     probes.append(("daily-frame-datetime-column", lambda x: em.DailyBaselineData(x, is_electricity_data=True), d.reset_index().rename(columns={"index": "datetime"})))
     probes.append(("daily-from_series", lambda x: em.DailyBaselineData.from_series(x[0], x[1], is_electricity_data=True), (d["observed"].copy(), d["temperature"].copy())))
     probes.append(("daily-reporting-from_series-no-usage", lambda x: em.DailyReportingData.from_series(None, x, is_electricity_data=True), d["temperature"].copy()))
+    other = "UTC" if tz != "UTC" else "America/Chicago"
+    t_other = d[["temperature"]].copy()
+    t_other.index = t_other.index.tz_convert(other)                  # weather frame (already named 'temperature') in another zone than the meter
+    probes.append(("daily-from_series-frames-feed-in-another-zone", lambda x: em.DailyBaselineData.from_series(x[0], x[1], is_electricity_data=True), (d[["observed"]].copy(), t_other)))
+    probes.append(("daily-reporting-from_series-frame-tzinfo", lambda x: em.DailyReportingData.from_series(None, x, tzinfo=d.index.tz), t_other.copy()))
+    th_other = FT.synth_hourly(tz=other, start=str(d.index[0].date()), days=60, seed=rng)[["temperature"]]
+    probes.append(("daily-from_series-hourly-frame-feed-in-another-zone", lambda x: em.DailyBaselineData.from_series(x[0], x[1], is_electricity_data=True), (d["observed"].iloc[:55].to_frame("observed"), th_other)))
     h = FT.synth_hourly(tz=tz, days=40, seed=rng, ghi=True)
     h.iloc[10, 1] = 0.0
     probes.append(("hourly-baseline-frame", lambda x: em.HourlyBaselineData(x, is_electricity_data=True), h))
@@ -221,6 +228,9 @@ def run_ctor_case(spec, keys):
     b = tdf.join(bdf).iloc[:-1]
     probes.append(("billing-baseline-frame", lambda x: em.BillingBaselineData(x, is_electricity_data=True), b))
     probes.append(("billing-from_series", lambda x: em.BillingBaselineData.from_series(x[0], x[1], is_electricity_data=True), (bdf["observed"].copy(), tdf["temperature"].copy())))
+    tb_other = tdf[["temperature"]].copy()
+    tb_other.index = tb_other.index.tz_convert(other)
+    probes.append(("billing-from_series-frames-feed-in-another-zone", lambda x: em.BillingBaselineData.from_series(x[0], x[1], is_electricity_data=True), (bdf[["observed"]].copy(), tb_other)))
     from opendsm.eemeter.models.hourly_caltrack import HourlyBaselineData as CB, HourlyReportingData as CR
     hc = FT.synth_hourly(tz=tz, days=30, seed=rng)
     hc.iloc[7, 1] = 0.0
